@@ -1019,6 +1019,39 @@ func keyOrder(k *checker, r *hx.RNG) {
 	}
 }
 
+
+// utf8Probe: a Go string is a storable value whatever its bytes. The encoder writes a string with
+// invalid UTF-8 as a CBOR text string without complaint, the decoder (default UTF8RejectInvalid) then
+// refuses the whole record: the write succeeds and the block's receipts can never be read again.
+func utf8Probe(c *hx.Ctx, reasonHex string) {
+	raw, err := hex.DecodeString(reasonHex)
+	hx.Must(err)
+	d := memory.New()
+	defer d.Close()
+	h := new(felt.Felt).SetUint64(7)
+	tx := &core.InvokeTransaction{TransactionHash: h, Version: new(core.TransactionVersion).SetUint64(1)}
+	rc := &core.TransactionReceipt{TransactionHash: h, Reverted: true, RevertReason: string(raw)}
+	c.Evaluations++
+	if err := core.WriteTransactionsAndReceipts(d, 1, []core.Transaction{tx}, []*core.TransactionReceipt{rc}); err != nil {
+		c.Hist["utf8-probe:write-refused"]++
+		return // refusing the write keeps the property: nothing was stored
+	}
+	got, err := core.GetReceiptByBlockAndIndex(d, 1, 0)
+	_, errAll := core.GetBlockByNumber(d, 1)
+	_ = errAll
+	if err == nil && got.RevertReason == string(raw) {
+		c.Hist["utf8-probe:roundtrips"]++
+		return
+	}
+	c.Hist["utf8-probe:unreadable"]++
+	_, err2 := core.GetReceiptsByBlockNumber(d, 1)
+	_, err3 := core.GetTransactionExecutionStatusByBlockAndIndex(d, 1, 0)
+	c.Violation("unreadable-after-write:invalid-utf8-string",
+		fmt.Sprintf("WriteTransactionsAndReceipts stores a receipt whose RevertReason is the %d byte(s) 0x%s (not valid UTF-8) without error; afterwards GetReceiptByBlockAndIndex: %v; GetReceiptsByBlockNumber: %v; GetTransactionExecutionStatusByBlockAndIndex: %v (same for Header.ProtocolVersion and class ABI / program strings)",
+			len(raw), reasonHex, err, err2, err3),
+		Replay{Seed: c.Seed, Case: -1, OnlyBlock: -1, OnlyTx: -1, Backend: "memory", Accessor: "unreadable-after-write:invalid-utf8-string", Block: 1, Index: 0, Detail: reasonHex}, false)
+}
+
 // ---------- translator + layout obligation ----------
 func regenerate() (tb *layouts.Table, note string, broken string) {
 	tb, err := layouts.Build(repoPath())
@@ -1103,6 +1136,10 @@ func main() {
 	if c.ReplayIn != "" {
 		only = &Replay{}
 		c.LoadReplay(only)
+		if only.Accessor == "unreadable-after-write:invalid-utf8-string" {
+			utf8Probe(c, only.Detail)
+			c.Finish("replay of the invalid-UTF-8 string probe")
+		}
 		if only.Accessor == "layout-obligation" || only.Accessor == "translator" {
 			nCases = 40
 			only = nil
@@ -1225,6 +1262,8 @@ func main() {
 	c.Extra["cases_run"] = done
 	c.Extra["oracle_seconds"] = oracleTime.Seconds()
 	c.Extra["checks_per_backend"] = perAccessor
+
+	utf8Probe(c, "ff")
 
 	// a broken obligation is reported after the search for a failing input
 	if broken != "" {
